@@ -57,7 +57,7 @@ const kvLongSym = "@long200"
 var kvLongID = strings.Repeat("x", 199) + "Z"
 
 // ID alphabet of the sequential part (symbolic form; kvID expands)
-var kvIDs = []string{"a", "b", "ab", "current", "next", "roots", kvLongSym, ".a", "a.b", ".hidden.x"}
+var kvIDs = []string{"a", "b", "ab", "current", "next", "roots", kvLongSym, ".a", "a.b", ".hidden.x", "a+b", "a b", "a%2Bb"}
 var kvNodeIDs = []string{"n1", "n2", ""}
 
 // IDs are opaque strings. On the back ends that do not map IDs to file names the alphabet also has IDs
